@@ -56,7 +56,9 @@ pub fn event_key(e: &Event) -> Option<String> {
 			v.sort();
 			Some(format!("SpendableOutputs {:?}", v))
 		},
-		Event::ChannelClosed { channel_id, reason, .. } => Some(format!("ChannelClosed {} {}", channel_id, vcore::canon(&format!("{:?}", reason)))),
+		// (which of several simultaneously true reasons is named – the commitment confirmed in the same block in
+		// which an HTLC timed out – depends on whether the tip or the transactions were announced first)
+		Event::ChannelClosed { channel_id, .. } => Some(format!("ChannelClosed {}", channel_id)),
 		Event::PaymentSent { payment_hash, .. } => Some(format!("PaymentSent {}", payment_hash)),
 		Event::PaymentFailed { payment_hash, .. } => Some(format!("PaymentFailed {:?}", payment_hash)),
 		Event::PaymentClaimed { payment_hash, amount_msat, .. } => Some(format!("PaymentClaimed {} {}", payment_hash, amount_msat)),
